@@ -58,13 +58,13 @@ PROPS['C06'] = {
 PROPS['C15'] = {
     'units': ['parser'],
     'level': 'proof',
-    'claim': 'Reset post-states of the document-boundary functions: document_end leaves an empty %TAG table unless keep_tags (and the same table with it); parser_process_directives leaves the table untouched when a document has no directives and otherwise installs exactly this document\'s table; load clears the anchor table before each document (anchors_inv re-established from empty); after DocumentEnd the control state is abs == Between with an empty state stack (from the C02 contracts).',
-    'technique': 'Verus: postconditions on document_end / parser_process_directives / load stating the reset state',
+    'claim': 'Reset post-states of the document-boundary functions: document_end leaves an empty %TAG table unless keep_tags (and the same table with it); parser_process_directives leaves the table untouched when a document has no directives and otherwise installs exactly this document\'s table; load clears the anchor table before each document (anchors_inv re-established from empty); after DocumentEnd the control state is abs == Between with an empty state stack (from the C02 contracts); document_start consumes every leading document-end marker before it looks at the next document. Scanner side: a document marker or directive line leaves indent == -1, an empty indentation stack, no possible simple key and no key permission (flow_level == 0), the end of the stream leaves no possible key, and - as a conjunct of the scanner invariant sc_inv, re-proved by every fetch_* function - outside every flow collection the flag flow_mapping_started is false, so no flow state is carried into the next block entry or document.',
+    'technique': 'Verus: postconditions on document_end / parser_process_directives / document_start / load and on the scanner\'s fetch_document_indicator / fetch_directive / fetch_stream_end / fetch_flow_collection_end stating the reset state; scanner invariant sc_inv',
     'not_decided': [
         'the concatenation theorem A ++ "..." ++ B itself (a two-run statement) is not mechanised',
-        'scanner-side resets (fetch_document_indicator: indent, simple keys) are in the scanner unit tiers',
+        'inside nested flow collections the flag flow_mapping_started can be stale (one boolean for a stack of collections): observed, belongs to C03 (not applicable)',
     ],
-    'trust': PARSER_TRUST,
+    'trust': PARSER_TRUST + SCANNER_TRUST,
 }
 PROPS['C17'] = {
     'units': ['parser'],
